@@ -73,7 +73,7 @@ func newIN865Band(repeaterCompatible bool) (Band, error) {
 				4: {4, 3, 2, 1, 0, 0, 5, 5},
 				5: {5, 4, 3, 2, 1, 0, 5, 5},
 				// 6
-				7: {7, 6, 5, 4, 3, 2, 7, 7},
+				7: {7, 5, 5, 4, 3, 2, 7, 7},
 			},
 			txPowerOffsets: []int{
 				0,
